@@ -96,7 +96,12 @@ def judge(ctx, parts):
                 else:
                     mism.append((part, kind, ci, step, code))
     panics = [x for part in parts for x in (part["rep"].get("panics") or [])]
+    aborts = [x for part in parts for x in (part["rep"].get("harness_aborts") or [])]
+    nchains = sum(part["rep"]["chains"] for part in parts)
     ctx.coverage["whole_app_panics"] = len(panics)
+    ctx.coverage["harness_aborted_chains"] = aborts[:5]
+    if len(aborts) * 20 > max(1, nchains + len(aborts)) and not found:
+        raise Broken("more than 5% of the whole-app chains could not be run by the harness", "\n".join(aborts[:5]))
     ctx.coverage["outcome_codes"] = counts
     ctx.coverage["model_mismatches"] = len(mism)
     if mism and not found:
